@@ -485,7 +485,9 @@ impl ZonedDateTime {
             &timezone,
             disambiguation,
             offset_option,
-            true,
+            // NOTE: an offset given as a field is matched exactly; only an offset string without a
+            // seconds part is matched to the minute.
+            false,
             provider,
         )?;
 
